@@ -49,7 +49,7 @@ def depth_attr(F, lm) -> str:
 def specialise(F, lm, rule: str, text: str, depth: Optional[int], depth_name: Optional[str]) -> List[Path]:
     rm = lm.rules[rule]
     fn = rm.rule.func
-    fi = FuncInfo('%s.t_%s' % (lm.spec.module.name, rule), lm.spec.module, fn)
+    fi = FuncInfo('%s.t_%s' % (lm.spec.module.name, rule), lm.spec.module, fn, captured=rm.rule.closure)
     t = ('param', fn.args.args[0].arg)
     ov = {('attr', t, 'value'): ('const', text)}
     if depth is not None and depth_name:
